@@ -46,9 +46,9 @@ CLAIMED = {
          "Design: 2-3 boots x option sets x image lengths; the leaking-default variant violates OnlyOwnOptions as it must. Conformance: histories of 1-4 boots in one (forked) process against a recording socket: every datagram is judged (StartAnnouncesBlocks, BlocksConsecutive, EndAfterBlocks, ImageReassembles, ConfigIsDefaultsPlusOptions, OnlyOwnOptions, ConfigDependsOnOwnOptionsOnly, ReturnedStructsAgree, SentToBootedBoard).",
          "Trusted: TLC, fake socket/time substituted from outside, transcription of the sv struct in Boot.tla from sark.struct. unix_time/boot_sig/root_chip are masked.",
          "DESIGN.md §6 C20"),
- "C01": ("TLA+ specs Multicast (router step, default routing, Propagate to quiescence) + MulticastTrace: the tables produced by the whole pipeline are EXECUTED by TLC for several keys of every net",
-         "Conformance: place / allocate / route / routing_tree_to_tables / minimise_tables by hand (7 placers x radii x 4 minimisation configurations x targets) and through both wrappers on generated machines with faults; TLC propagates each injected packet through the per-chip tables and judges NoDrop, LiveHardwareOnly, NoCirculation, AtMostOnce, ExactDelivery (cores and endpoint exits) and FixedBits.",
-         "Trusted: TLC + Bitwise override, encodings in harness/props/c01.py and harness/proj.py. Expected cores come from the pipeline's own placements/allocations (judged by C02/C05). Keys use 10 active bits; endpoint links are dead links of the fabric. The design-level composition argument is covered by the C03/C04/C10 design jobs (see DESIGN.md).",
+ "C01": ("TLA+ specs Multicast (router step, default routing, Propagate to quiescence) + MulticastDesign (tree -> tables -> default-route removal -> round-by-round propagation as TLC actions; wrong removal rule refuted) + MulticastTrace: the tables produced by the whole pipeline are EXECUTED by TLC for several keys of every net",
+         "Design: every tree of <= 4-5 chips on a 3x2 / 3x3 torus x every sink set, with and without default-route removal: NoTrouble (no drop, no duplicate, no circulation), ExactAtQuiescence. Conformance: place / allocate / route / routing_tree_to_tables / minimise_tables by hand (7 placers x radii x 4 minimisation configurations x targets) and through both wrappers on generated machines with faults; TLC propagates each injected packet through the per-chip tables and judges NoDrop, LiveHardwareOnly, NoCirculation, AtMostOnce, ExactDelivery (cores and endpoint exits) and FixedBits.",
+         "Trusted: TLC + Bitwise override, encodings in harness/props/c01.py and harness/proj.py. Expected cores come from the pipeline's own placements/allocations (judged by C02/C05). Keys use 10 active bits; endpoint links are dead links of the fabric.",
          "DESIGN.md §6 C01"),
  "C07": ("TLA+ specs Memory (windows, access types, CoversExactly) + MemoryDesign (chunking with any completion order, liveness) + MemoryTrace: TLC keeps its own model of the machine's memory and judges every SCP command and client call",
          "Design: every (address, length) in a 12-24 byte window x buffer sizes x window sizes, replies completing in any order, ByteExact / ChunksLegal / NothingElseTouched / termination. Conformance: real MachineController + SCPConnection against the simulated machine under lost / duplicated / late datagrams: read, write, fill, sv struct fields, per-core fields, link reads/writes; clauses WithinBuffer, AccessTypeAllowed, LinkWholeWords, CoversExactly, ReturnsStoredBytes, StoresGivenBytes, Env* (the simulator is validated against the model).",
